@@ -65,7 +65,10 @@ attack = st.one_of(
     st.fixed_dictionaries({"cls": st.just("hello"), "kind": st.sampled_from([
         "attacker-signed", "attacker-signed-keep-root", "swap-pubkey", "swap-salt", "swap-token", "swap-root-only",
         "other-session", "wrong-pin", "other-type", "sig-reencode", "empty-sig", "payload-extra",
-        "sig-null", "sig-int", "sig-str", "sig-bool", "sig-list", "sig-float", "sig-null", "sig-int"])}),
+        "sig-null", "sig-int", "sig-str", "sig-bool", "sig-list", "sig-float", "sig-null", "sig-int"]),
+        # the genuine hello is lost and the edited one reaches the client this much later: the client has been waiting (and
+        # running its update loop, timers, retries) for a good part of - or longer than - its 2 s connect timeout
+        "delay": st.sampled_from([0.002, 0.002, 0.002, 0.002, 0.4, 0.75, 1.45, 1.9, 2.3])}),
     st.fixed_dictionaries({"cls": st.just("challenge"), "kind": st.sampled_from([
         "wrong-token-right-key", "right-token-wrong-key", "crc-plaintext", "other-address", "token-plus-one", "garbage-under-key",
         "token-bit-flip", "token-bit-flip", "token-offset", "other-pending-token", "other-pending-token"]), "bit": st.integers(0, 63), "off": st.sampled_from([2 ** 31, -2 ** 31, 2 ** 32, -2 ** 32, 2 ** 30, 2 ** 63 - 2 ** 31])}),
@@ -186,7 +189,9 @@ class Mitm(object):
             d = self.edit_hello(em.data, a["kind"])
             self.classes.add("hello-" + a["kind"])
             self.edited_hello = d
-            self.w.net.push(em.t + 0.002, em.dst, em.src, d)
+            self.w.net.push(em.t + a.get("delay", 0.002), em.dst, em.src, d)
+            if a.get("delay", 0.002) > 0.1:
+                self.classes.add("hello-delayed-%.2f" % a["delay"])
             return []
         if a["cls"] == "challenge" and k == 3:
             return self.hostile_challenge(em, a["kind"])
@@ -413,7 +418,7 @@ def body(ctx, c, stats=None):
                     ctx.violation("promoted-without-proof-of-key", "attack %r: server reports %s connected but no delivered datagram opens under its key as a challenge response with its token" % (
                         a, ch.laddr,))
 
-        for _ in range(45):
+        for _ in range(45 + (int(a.get("delay", 0.0) / 0.02) + 10 if a["cls"] == "hello" and a.get("delay", 0.0) > 0.1 else 0)):
             w.step(0.02)
             check_step()
         # traffic afterwards (so that a late duplicate meets an established, busy connection)
